@@ -5,6 +5,7 @@ package main
 // became observable before the next quiescent state.
 
 import (
+	"encoding/binary"
 	"fmt"
 	"sort"
 	"strings"
@@ -26,17 +27,29 @@ type Exec struct {
 	ops    []string // the scenario so far (for replays)
 	broken bool
 	class  func(lhs, obs string) (string, bool)
+	// timed machines: every line carries the monotonic clock (ms since the scenario began) as a last "@t" token
+	timed bool
+	t0    time.Time
+	// request / survey ids are chosen by the implementation from a time-seeded counter; the trace uses canonical
+	// ids 0x80000000|k for the k-th Send, translated both ways once the base has been learned from the first transmission
+	canonIDs bool
+	idBase   uint32
+	idKnown  bool
+	nsent    int
 }
 
 func NewExec(c *Ctx, tag string, proto mangos.ProtocolBase, newArgs string) *Exec {
 	e := &Exec{c: c, tag: tag, proto: proto, net: &vp.Net{}, pipes: map[int]*vp.VPipe{}, ctxs: map[int]mangos.ProtocolContext{0: proto},
-		calls: map[int]*vp.Call{}}
+		calls: map[int]*vp.Call{}, t0: time.Now()}
 	vp.Quiesce()
 	e.emit("new "+newArgs, "-")
 	return e
 }
 
 func (e *Exec) emit(lhs, obs string) {
+	if e.timed {
+		lhs = fmt.Sprintf("%s @%d", lhs, time.Since(e.t0).Milliseconds())
+	}
 	e.ops = append(e.ops, lhs+" => "+obs)
 	class, nontrivial := "", true
 	if e.class != nil {
@@ -87,7 +100,7 @@ func (e *Exec) observe() string {
 		}
 		delete(e.calls, id)
 		if call.Kind == "recv" && call.Err == nil {
-			evs = append(evs, fmt.Sprintf("ret:%d:msg:%s:%s", id, vp.Hex(call.Msg.Header), vp.Hex(call.Msg.Body)))
+			evs = append(evs, fmt.Sprintf("ret:%d:msg:%s:%s", id, vp.Hex(e.toCanon(call.Msg.Header)), vp.Hex(call.Msg.Body)))
 			call.Msg.Free()
 		} else {
 			evs = append(evs, fmt.Sprintf("ret:%d:%s", id, vp.ErrName(call.Err)))
@@ -99,7 +112,12 @@ func (e *Exec) observe() string {
 	tx := e.net.TakeTx()
 	sort.SliceStable(tx, func(i, j int) bool { return tx[i].Pipe < tx[j].Pipe })
 	for _, t := range tx {
-		evs = append(evs, fmt.Sprintf("tx:%d:%s:%s", t.Pipe, vp.Hex(t.Header), vp.Hex(t.Body)))
+		if e.canonIDs && !e.idKnown && len(t.Header) >= 4 && e.nsent > 0 {
+			real := binary.BigEndian.Uint32(t.Header[len(t.Header)-4:])
+			e.idBase = (real - uint32(e.nsent)) & 0x7fffffff
+			e.idKnown = true
+		}
+		evs = append(evs, fmt.Sprintf("tx:%d:%s:%s", t.Pipe, vp.Hex(e.toCanon(t.Header)), vp.Hex(t.Body)))
 	}
 	cl := e.net.TakeEvs()
 	sort.Strings(cl)
@@ -110,6 +128,41 @@ func (e *Exec) observe() string {
 		return "-"
 	}
 	return strings.Join(evs, " ")
+}
+
+// toCanon rewrites the last header word (a request / survey id) into its canonical form
+func (e *Exec) toCanon(hdr []byte) []byte {
+	if !e.canonIDs || !e.idKnown || len(hdr) < 4 {
+		return hdr
+	}
+	out := append([]byte{}, hdr...)
+	w := out[len(out)-4:]
+	real := binary.BigEndian.Uint32(w)
+	if real&0x80000000 != 0 {
+		binary.BigEndian.PutUint32(w, ((real-e.idBase)&0x7fffffff)|0x80000000)
+	}
+	return out
+}
+
+// RealID gives the id the implementation uses for canonical id k
+func (e *Exec) RealID(k uint32) uint32 {
+	return ((k&0x7fffffff)+e.idBase)&0x7fffffff | 0x80000000
+}
+
+// InjectCanon injects a body whose first word is a canonical id (translated when it has the request bit)
+func (e *Exec) InjectCanon(id int, body []byte) {
+	p := e.pipes[id]
+	if p == nil {
+		return
+	}
+	real := append([]byte{}, body...)
+	if e.canonIDs && e.idKnown && len(real) >= 4 {
+		w := binary.BigEndian.Uint32(real[:4])
+		if w&0x80000000 != 0 {
+			binary.BigEndian.PutUint32(real[:4], e.RealID(w))
+		}
+	}
+	e.Op(fmt.Sprintf("inject %d %s", id, vp.Hex(body)), func() { p.Inject(real) })
 }
 
 func (e *Exec) Op(lhs string, f func()) string {
@@ -167,6 +220,7 @@ func (e *Exec) Recv(ctx int) int {
 }
 
 func (e *Exec) Send(ctx int, hdr, body []byte) int {
+	e.nsent++
 	e.ncall++
 	id := e.ncall
 	e.Op(fmt.Sprintf("send %d %d %s %s", id, ctx, vp.Hex(hdr), vp.Hex(body)), func() { e.calls[id] = vp.GoSend(e.ctxs[ctx], hdr, body) })
